@@ -21,6 +21,7 @@ class Kit:
         self.heap_axioms = []
         self.background_axioms = []     # facts about static objects of the initial heap: added when discharging, not carried in every path condition
         self.trusted = []       # (name, reason)
+        self.rule_generators = []       # f(engine) -> generator(rules, exprs) -> ground instances of assumed laws
 
     def contract(self, qual, **kw):
         c = Contract(qual, **kw)
@@ -60,6 +61,10 @@ class Kit:
         self.background_axioms.append(f)
         return f
 
+    def ground_rules(self, f):
+        self.rule_generators.append(f)
+        return f
+
     def axiom(self, f):
         self.heap_axioms.append(f)
         return f
@@ -82,5 +87,7 @@ class Kit:
         e.heap_axioms = list(self.heap_axioms)
         from .state import State
         st0 = State()
+        for g in self.rule_generators:
+            e.rules.generators.append(g(e))
         e.background = [fact for ax in self.background_axioms for fact in ax(e, st0)]
         return e
